@@ -6,7 +6,7 @@ set -u
 cd /verif
 W=/verif/work/binding.$$; mkdir -p $W
 H=harness/target/release/ckc-verif-harness
-run() { TRACE=$1 bin/tlcrun bind -Xmx4g -Dtlc2.tool.queue.IStateQueue=StateDeque -- -workers 1 -config CkcTrace.cfg CkcTrace.tla 2>&1 | grep -E "TRACE (ACCEPTED|REJECTED)" | head -1; }
+run() { PROPERTY=ALL TRACE=$1 bin/tlcrun bind -Xmx4g -Dtlc2.tool.queue.IStateQueue=StateDeque -- -workers 1 -config CkcTrace.cfg CkcTrace.tla 2>&1 | grep -E "TRACE (ACCEPTED|REJECTED)" | head -1; }
 $H trace C19 --gen gen --seed 3 --out $W/c19.ndjson >/dev/null
 $H trace C02 --gen gen --seed 3 --out $W/c02.ndjson >/dev/null
 echo "good C19 trace:            $(run $W/c19.ndjson)"
